@@ -221,6 +221,7 @@ class Analysis:
                  on_loop_pre=None, on_loop_entry=None, on_backedge=None):
         self.models = {}   # external function name -> model(an, f, call, state) -> [(value, state)]
         self.inline = True  # analyse same-file loop-free callees in the caller's state
+        self.on_index = None  # on_index(f, idx node, base key, index form, state)
         self.on_loop_pre = on_loop_pre
         self.on_loop_entry = on_loop_entry
         self.on_backedge = on_backedge
@@ -267,6 +268,8 @@ class Analysis:
         k = e.get("k")
         if k == "paren":
             return self.cellkey(f, e["e"], st)
+        if k == "gvar":
+            return "::%s" % e.get("n")
         if k == "var":
             b = st.ptr.get((f.name, e["id"]))
             if b is not None and not e.get("pd"):
@@ -298,6 +301,8 @@ class Analysis:
                 return None
             vals = self.eval(f, e["i"], st)
             if len(vals) == 1:
+                if self.on_index is not None:
+                    self.on_index(f, e, bk, vals[0][0], st)
                 return "%s[%s]" % (bk, lshow(vals[0][0]))
             return "%s[?]" % bk
         return None
@@ -340,7 +345,7 @@ class Analysis:
             return [(v, st)]
         if k == "paren":
             return self.eval(f, e["e"], st)
-        if k in ("var", "mem", "deref", "idx"):
+        if k in ("var", "gvar", "mem", "deref", "idx"):
             if e.get("pd"):
                 if k == "var":
                     key = "%s:%s" % (f.name, e["n"])
@@ -357,7 +362,7 @@ class Analysis:
             if key is None:
                 return [(self.fresh(st, "?", False), st)]
             t = e.get("t", "")
-            uns = "unsigned" in t or "size_t" in t or "uint" in t
+            uns = "unsigned" in t or "size_t" in t or "uint" in t or t.startswith("enum ")
             return [(self.read(st, key, uns), st)]
         if k == "ref":
             v = st.vals.get((f.name, e.get("b"), e.get("i")))
